@@ -246,6 +246,30 @@ func randSelector(r *rng, f *Features, allowEmpty bool) metav1.LabelSelector {
 	return s
 }
 
+// exported gives every document what a dump of a live cluster carries in its metadata: a uid of its own, a
+// resourceVersion, a creation time. Nothing the analysis reads changes.
+func exported(r *rng, docs []Doc) []Doc {
+	out := make([]Doc, len(docs))
+	for i, d := range docs {
+		out[i] = d
+		var m map[string]interface{}
+		if err := yaml.Unmarshal([]byte(d.Text), &m); err != nil || m == nil {
+			continue
+		}
+		md, ok := m["metadata"].(map[string]interface{})
+		if !ok {
+			continue
+		}
+		md["uid"] = fmt.Sprintf("%08x-0000-4000-8000-%012x", r.u64()&0xffffffff, r.u64()&0xffffffffffff)
+		md["resourceVersion"] = fmt.Sprint(1000 + r.intn(9000))
+		md["creationTimestamp"] = "2024-05-01T10:00:00Z"
+		if b, err := yaml.Marshal(m); err == nil {
+			out[i].Text = string(b)
+		}
+	}
+	return out
+}
+
 // respellSelector returns the same selector written differently: the expressions and the values of each in reverse order.
 func respellSelector(s metav1.LabelSelector) metav1.LabelSelector {
 	out := metav1.LabelSelector{}
@@ -768,13 +792,22 @@ func genWorld(r *rng, f Features) *World {
 				}
 			}
 			svc := fmt.Sprintf("svc%d", i)
+			svcSel := svcSelector(r, t.labels)
+			if heavy && r.chance(1, 2) {
+				// one label only: the service stands in front of every workload that carries it (blue and green), and these
+				// need not agree on what number a port name stands for
+				for _, k := range sortedKeys(t.labels) {
+					svcSel = map[string]string{k: t.labels[k]}
+					break
+				}
+			}
 			// a service with up to three ports, each aimed at one of the target's container ports by number or by name
 			var sps []corev1.ServicePort
 			for k := 0; k < 3 && (k == 0 || (k < len(t.ports) && (heavy || r.chance(1, 2)))); k++ {
 				sp := corev1.ServicePort{Name: fmt.Sprintf("p%d", k), Port: int32(80 + k), Protocol: corev1.ProtocolTCP}
 				if k < len(t.ports) {
 					cp := t.ports[k]
-					if cp.Name != "" && r.chance(1, 2) {
+					if cp.Name != "" && (heavy || r.chance(1, 2)) {
 						sp.TargetPort = intstr.FromString(cp.Name)
 					} else {
 						sp.TargetPort = intstr.FromInt32(cp.ContainerPort)
@@ -786,7 +819,7 @@ func genWorld(r *rng, f Features) *World {
 				sps = append(sps, sp)
 			}
 			w.Docs = append(w.Docs, toDoc("Service", t.ns, svc, &corev1.Service{TypeMeta: metav1.TypeMeta{APIVersion: "v1", Kind: "Service"},
-				ObjectMeta: metav1.ObjectMeta{Name: svc, Namespace: t.ns}, Spec: corev1.ServiceSpec{Selector: svcSelector(r, t.labels), Ports: sps}}))
+				ObjectMeta: metav1.ObjectMeta{Name: svc, Namespace: t.ns}, Spec: corev1.ServiceSpec{Selector: svcSel, Ports: sps}}))
 			backend := func() netv1.IngressBackend {
 				sp := pick(r, sps)
 				be := netv1.IngressBackend{Service: &netv1.IngressServiceBackend{Name: svc, Port: netv1.ServiceBackendPort{Number: sp.Port}}}
